@@ -328,6 +328,36 @@ def stale_queue_case(link):
     return obs
 
 
+def timed_out_request_case(link):
+    """A request of ours that is never answered (T3 runs out, the caller gets None); later data messages arrive that happen to carry
+    the same system bytes: they are ordinary inbound messages and reach the application (nothing of the old transaction is left)."""
+    old_t3 = link.rig.settings.timeouts.t3
+    link.rig.settings.timeouts.t3 = 0.3
+    del link.app[:]
+    n0 = len(link.rig.conn.sent)
+    box = {}
+    try:
+        th = threading.Thread(target=lambda: box.setdefault("r", link.proto.send_and_waitfor_response(link.sf.function(1, 1)())), daemon=True)
+        th.start()
+        th.join(10)
+    finally:
+        link.rig.settings.timeouts.t3 = old_t3
+    frames = [b for b in protorig_split(link.rig.conn.sent[n0:]) if b.header.s_type.value == 0]
+    system = frames[0].header.system if frames else None
+    obs = {"request_returned": not th.is_alive(), "result": repr(box.get("r")), "system": system, "open_transactions_afterwards": len(link.proto._response_queues)}
+    if system is None or th.is_alive():
+        return obs
+    msgs = [(system, 6101), ((system + 1) % 2**32, 6102), (system, 6103)]
+    link.rig.conn.feed(b"".join(link.reply_frame(s0, m) for s0, m in msgs))
+    deadline = time.monotonic() + 5
+    while time.monotonic() < deadline and len(link.app) < 3:
+        time.sleep(0.002)
+    link.rig.settle()
+    obs["sent"] = msgs
+    obs["delivered"] = list(link.app)
+    return obs
+
+
 def alloc_cases(rnd):
     lits, raw = [], []
     for c0 in [0, 100, 2**32 - 3, 2**32 - 1, rnd.randrange(2**32)]:
@@ -526,6 +556,10 @@ def run(tier, replay=None):
             if re["delivered"] != re["expected"] or re["overlapping_callbacks"] or re["select_rsp_for"] != [0x200] or re["dispatcher_threads"] > 1:
                 report.violation({"kind": "counterexample", "what": "a handler that takes the endpoint down and up again (disable(), enable()) and keeps running: the messages of the next connection "
                                   "were not handed to the application once, in order, one at a time after it, or the Select.req was not answered", **re}, True, tag="reenable")
+            late = timed_out_request_case(link)
+            cov["after_timed_out_request"] = late
+            if not late["request_returned"] or (late.get("system") is not None and late.get("delivered") != late.get("sent")):
+                report.violation({"kind": "counterexample", "what": "after a request of ours had timed out (T3), inbound data messages carrying its system bytes were not handed to the application", **late}, True, tag="latequeue")
             if stale.get("system") is not None and stale.get("delivered") != stale.get("sent"):
                 report.violation({"kind": "counterexample", "what": "an inbound data message carrying the system bytes of an earlier, unanswered Linktest.req was not handed to the application", **stale}, True, tag="stalequeue")
         finally:
